@@ -1,4 +1,5 @@
 """C06 -- every reply respects what the client sent and negotiated (Serve.tla)."""
+import c04_api
 import serve_common as sc
 
 
@@ -12,3 +13,11 @@ def run(ctx, replay):
     sc.run_family_models(ctx, sc.FAMILIES, thorough)
     sc.regression_model(ctx)
     sc.replay(ctx, "C06", sc.FAMILIES, num=400 if not thorough else 5000, variants=2 if not thorough else 4)
+    # AD on replies COMPOSED from several cache entries (alias chases on the message, byte and wire-born paths):
+    # Lease.tla histories on the real cache, judged by the AD clause only
+    ctx.overlay_tags.add("c04")
+    import os
+    ov = os.path.join(ctx.scratch, "overlay.json")
+    if os.path.exists(ov):
+        os.remove(ov)
+    c04_api.run_ad_focus(ctx, 500 if not thorough else 4000)
